@@ -486,6 +486,19 @@ impl State {
             if queued != heap_ids.contains(&id) {
                 bad!("node {id}: is_in_recompute_heap = {queued} disagrees with the heap contents");
             }
+            // a valid node created by a run of a bind is on that bind's list of nodes to invalidate
+            if n.is_valid() {
+                if let Scope::Bind(weak) = &n.created_in {
+                    if let Some(bind) = weak.upgrade() {
+                        if bind.is_valid() && !bind.verif_lists_rhs_node(n.id) {
+                            bad!(
+                                "node {id} ({}): created by a bind's closure but missing from the bind's list of nodes created on its right-hand side",
+                                kind_tag(n)
+                            );
+                        }
+                    }
+                }
+            }
             if queued != n.needs_to_be_computed() {
                 bad!(
                     "node {id} ({}): queued = {queued} but necessary-and-stale = {}",
